@@ -340,9 +340,9 @@ impl Bdd {
                         );
                         #[cfg(feature = "adhoccountmodels")]
                         let (lo_exp, hi_exp) = if lodepth > hidepth {
-                            (1, 2usize.pow((lodepth - hidepth) as u32))
+                            (1, 2usize.saturating_pow((lodepth - hidepth) as u32))
                         } else {
-                            (2usize.pow((hidepth - lodepth) as u32), 1)
+                            (2usize.saturating_pow((hidepth - lodepth) as u32), 1)
                         };
                         #[cfg(not(feature = "adhoccountmodels"))]
                         let (lo_exp, hi_exp) = (0, 0);
@@ -351,13 +351,19 @@ impl Bdd {
                             new_term,
                             (
                                 (
-                                    lo_counts.cmodels * lo_exp + hi_counts.cmodels * hi_exp,
-                                    lo_counts.models * lo_exp + hi_counts.models * hi_exp,
+                                    lo_counts
+                                        .cmodels
+                                        .saturating_mul(lo_exp)
+                                        .saturating_add(hi_counts.cmodels.saturating_mul(hi_exp)),
+                                    lo_counts
+                                        .models
+                                        .saturating_mul(lo_exp)
+                                        .saturating_add(hi_counts.models.saturating_mul(hi_exp)),
                                 )
                                     .into(),
                                 (
-                                    lo_paths.cmodels + hi_paths.cmodels,
-                                    lo_paths.models + hi_paths.models,
+                                    lo_paths.cmodels.saturating_add(hi_paths.cmodels),
+                                    lo_paths.models.saturating_add(hi_paths.models),
                                 )
                                     .into(),
                                 std::cmp::max(lodepth, hidepth) + 1,
@@ -481,15 +487,27 @@ impl Bdd {
                 }
                 (
                     (
-                        lo_counts.cmodels * 2usize.pow(lo_exp)
-                            + hi_counts.cmodels * 2usize.pow(hi_exp),
-                        lo_counts.models * 2usize.pow(lo_exp)
-                            + hi_counts.models * 2usize.pow(hi_exp),
+                        lo_counts
+                            .cmodels
+                            .saturating_mul(2usize.saturating_pow(lo_exp))
+                            .saturating_add(
+                                hi_counts
+                                    .cmodels
+                                    .saturating_mul(2usize.saturating_pow(hi_exp)),
+                            ),
+                        lo_counts
+                            .models
+                            .saturating_mul(2usize.saturating_pow(lo_exp))
+                            .saturating_add(
+                                hi_counts
+                                    .models
+                                    .saturating_mul(2usize.saturating_pow(hi_exp)),
+                            ),
                     )
                         .into(),
                     (
-                        lo_paths.cmodels + hi_paths.cmodels,
-                        lo_paths.models + hi_paths.models,
+                        lo_paths.cmodels.saturating_add(hi_paths.cmodels),
+                        lo_paths.models.saturating_add(hi_paths.models),
                     )
                         .into(),
                     std::cmp::max(lodepth, hidepth) + 1,
